@@ -3,7 +3,6 @@ package obfuscation
 import (
 	"fmt"
 	"strconv"
-	"strings"
 
 	"golang.org/x/exp/slices"
 
@@ -23,6 +22,9 @@ var (
 	parserPool fastjson.ParserPool
 	arenaPool  fastjson.ArenaPool
 )
+
+// JSONPath exclusions address the body from the transaction root
+var jsonPathBodyPrefixes = []string{"$.request.body", "$.response.body"}
 
 func (obfuscator Obfuscator) ObfuscateJSON(
 	raw string,
@@ -169,8 +171,10 @@ func isCursorInExcludedPath(cursor string, excludedPaths []string) bool {
 		return false
 	}
 	for _, path := range excludedPaths {
-		if strings.HasSuffix(path, cursor) {
-			return true
+		for _, bodyPrefix := range jsonPathBodyPrefixes {
+			if path == bodyPrefix+cursor {
+				return true
+			}
 		}
 	}
 	return false
